@@ -21,6 +21,7 @@ func TestProp(t *testing.T) {
 		return
 	}
 	r.SetRule("every case starts from a reference-produced ciphertext (etype x plaintext length 0..64 x 1 key quick, 0..120 x 8 keys thorough) and applies one transformation that is not the identity: " +
+		"(plus plaintexts of 4080, 4200 and 9000 bytes - thorough: also 4095..4097, 16500, 66000 - with seeded samples of the transformations); every API level (crypto.DecryptMessage, EType.DecryptMessage, crypto.DecryptEncPart); " +
 		"every single-bit flip of the whole ciphertext, every truncation length 0..n-1, 1/8/16 appended bytes, every swap of two adjacent cipher blocks, every other usage of the usage set " +
 		"(RFC 4757 aliases skipped for etype 23), 4 unrelated keys, keys of other etypes' lengths; expected outcome is always an error. distinct = (etype,len,key,transformation); all non-trivial")
 	r.Assume("a success that the reference decryptor also accepts (a real MAC collision, p <= 2^-96) is reported inconclusive, not violated")
@@ -41,6 +42,16 @@ func TestProp(t *testing.T) {
 			}
 		}
 	}
+	// long messages: just below and above 4 KiB, and above 8 KiB and 64 KiB (thorough)
+	longs := []int{4080, 4200, 9000}
+	if vh.Thorough() {
+		longs = append(longs, 4095, 4096, 4097, 16500, 66000)
+	}
+	for _, et := range kcrypto.Etypes {
+		for _, n := range longs {
+			units = append(units, unit{et, 0, n})
+		}
+	}
 	vh.Workers(len(units), func(i int) {
 		u := units[i]
 		base(r, u.et, u.ki, u.n)
@@ -53,7 +64,11 @@ func TestProp(t *testing.T) {
 	r.Require("base_accepted", 300)
 }
 
+// base runs every transformation on one reference ciphertext. For plaintexts longer than 1000 bytes the bit flips, truncations,
+// block swaps and usages are seeded samples instead of all of them (a long message is there for what depends on its length:
+// anything that looks only at the first part of the data).
 func base(r *vh.Run, et int32, ki, n int) {
+	sparse := n > 1000
 	bk := fmt.Sprintf("et=%d/len=%d/key=%d", et, n, ki)
 	if !r.Mine(bk) {
 		return
@@ -63,7 +78,8 @@ func base(r *vh.Run, et int32, ki, n int) {
 	if n%2 == 1 {
 		key = pcommon.SharedKey(et, ki) // odd lengths: the same bytes for every etype of equal key length
 	}
-	usage := pcommon.UsageSet[rnd.Intn(len(pcommon.UsageSet))]
+	// the base usages cycle through the usage set with the length, so that every usage is a base usage for every etype
+	usage := pcommon.UsageSet[(n+ki*11)%len(pcommon.UsageSet)]
 	pt := rnd.Bytes(n)
 	ct, err := kcrypto.EncryptConf(et, key, usage, pt, rnd.Bytes(kcrypto.ConfLen(et)))
 	if err != nil {
@@ -73,33 +89,63 @@ func base(r *vh.Run, et int32, ki, n int) {
 	ekey := types.EncryptionKey{KeyType: et, KeyValue: key}
 	et0, _ := crypto.GetEtype(et)
 
+	// every transformed ciphertext goes through the three API levels an application can call: crypto.DecryptMessage, the EType
+	// interface of the key's etype, and crypto.DecryptEncPart on an EncryptedData
+	levels := []string{"crypto.DecryptMessage", "EType.DecryptMessage", "crypto.DecryptEncPart"}
 	try := func(kind, sub string, c []byte, k types.EncryptionKey, u uint32, okCounter string) {
 		ck := bk + "/" + kind + "/" + sub
 		r.Eval(ck, true)
-		var out []byte
-		var derr error
-		detail := map[string]any{"case": ck, "etype": et, "usage": u, "key": fmt.Sprintf("%x", k.KeyValue), "ciphertext": fmt.Sprintf("%x", c),
-			"base_ciphertext": fmt.Sprintf("%x", ct), "base_usage": usage, "base_key": fmt.Sprintf("%x", key)}
-		if p, v, w := vh.Guard(func() { out, derr = crypto.DecryptMessage(append([]byte{}, c...), k, u) }); p {
-			r.Violation(fmt.Sprintf("C06|panic|%s|%s|etype=%d|%s", w, vh.PanicClass(v), et, kind), "DecryptMessage panicked on a non-authentic ciphertext: "+v, detail)
-			return
-		}
-		if derr == nil {
-			// hand to the reference
-			if len(k.KeyValue) == kcrypto.KeyLen(et) {
-				if _, _, rerr := kcrypto.Decrypt(et, k.KeyValue, u, c); rerr == nil {
-					r.Inconclusive("reference also accepts transformed ciphertext (MAC collision?) " + ck)
-					return
-				}
+		for li, level := range levels {
+			var out []byte
+			var derr error
+			detail := map[string]any{"case": ck, "api": level, "etype": et, "usage": u, "key": fmt.Sprintf("%x", k.KeyValue), "ciphertext": fmt.Sprintf("%x", c),
+				"base_ciphertext": fmt.Sprintf("%x", ct), "base_usage": usage, "base_key": fmt.Sprintf("%x", key)}
+			if len(fmt.Sprint(detail["ciphertext"])) > 600 {
+				detail["ciphertext"], detail["base_ciphertext"] = fmt.Sprintf("%x...(%d bytes)", c[:64], len(c)), fmt.Sprintf("%x...(%d bytes)", ct[:64], len(ct))
 			}
-			detail["returned_plaintext"] = fmt.Sprintf("%x", out)
-			r.Violation(fmt.Sprintf("C06|accepted|etype=%d|%s", et, kind), "DecryptMessage returned plaintext for a ciphertext not produced under that key and usage", detail)
-			return
-		}
-		if len(out) != 0 {
-			detail["returned_plaintext"] = fmt.Sprintf("%x", out)
-			r.Violation(fmt.Sprintf("C06|plaintext-with-error|etype=%d|%s", et, kind), "DecryptMessage returned an error together with plaintext bytes", detail)
-			return
+			skip := false
+			if p, v, w := vh.Guard(func() {
+				switch li {
+				case 0:
+					out, derr = crypto.DecryptMessage(append([]byte{}, c...), k, u)
+				case 1:
+					ek, e := crypto.GetEtype(k.KeyType)
+					if e != nil {
+						skip = true
+						return
+					}
+					out, derr = ek.DecryptMessage(append([]byte{}, k.KeyValue...), append([]byte{}, c...), u)
+				default:
+					out, derr = crypto.DecryptEncPart(types.EncryptedData{EType: k.KeyType, KVNO: 1, Cipher: append([]byte{}, c...)}, k, u)
+				}
+			}); p {
+				r.Violation(fmt.Sprintf("C06|panic|%s|%s|etype=%d|%s", w, vh.PanicClass(v), et, kind), level+" panicked on a non-authentic ciphertext: "+v, detail)
+				return
+			}
+			if skip {
+				continue
+			}
+			lv := ""
+			if li > 0 {
+				lv = "|" + level
+			}
+			if derr == nil {
+				// hand to the reference
+				if len(k.KeyValue) == kcrypto.KeyLen(et) {
+					if _, _, rerr := kcrypto.Decrypt(et, k.KeyValue, u, c); rerr == nil {
+						r.Inconclusive("reference also accepts transformed ciphertext (MAC collision?) " + ck)
+						return
+					}
+				}
+				detail["returned_plaintext"] = fmt.Sprintf("%x", out)
+				r.Violation(fmt.Sprintf("C06|accepted|etype=%d|%s%s", et, kind, lv), level+" returned plaintext for a ciphertext not produced under that key and usage", detail)
+				return
+			}
+			if len(out) != 0 {
+				detail["returned_plaintext"] = fmt.Sprintf("%x", out)
+				r.Violation(fmt.Sprintf("C06|plaintext-with-error|etype=%d|%s%s", et, kind, lv), level+" returned an error together with plaintext bytes", detail)
+				return
+			}
 		}
 		r.Inc(okCounter)
 	}
@@ -113,7 +159,18 @@ func base(r *vh.Run, et int32, ki, n int) {
 	r.SampleKind(fmt.Sprintf("et%d", et), 1, map[string]any{"etype": et, "len": n, "usage": usage, "key": fmt.Sprintf("%x", key), "ciphertext": fmt.Sprintf("%x", ct), "transformations": "bit flips, truncations, appends, block swaps, usages, keys"})
 
 	// every single-bit flip
-	for i := 0; i < len(ct)*8; i++ {
+	flips := make([]int, 0, 128)
+	if sparse {
+		flips = append(flips, 0, len(ct)*8-1, len(ct)*4)
+		for j := 0; j < 96; j++ {
+			flips = append(flips, rnd.Intn(len(ct)*8))
+		}
+	} else {
+		for i := 0; i < len(ct)*8; i++ {
+			flips = append(flips, i)
+		}
+	}
+	for _, i := range flips {
 		c := append([]byte{}, ct...)
 		c[i/8] ^= 0x80 >> uint(i%8)
 		try("bitflip", fmt.Sprint(i), c, ekey, usage, "bitflip_rejected")
@@ -137,6 +194,9 @@ func base(r *vh.Run, et int32, ki, n int) {
 	}
 	// every truncation
 	for l := 0; l < len(ct); l++ {
+		if sparse && l > 40 && l < len(ct)-40 && l%257 != 0 {
+			continue
+		}
 		try("truncate", fmt.Sprint(l), ct[:l], ekey, usage, "truncation_rejected")
 	}
 	// appended bytes
@@ -151,6 +211,9 @@ func base(r *vh.Run, et int32, ki, n int) {
 		bs = 8
 	}
 	for o := 0; o+2*bs <= len(ct); o += bs {
+		if sparse && (o/bs)%37 != 0 {
+			continue
+		}
 		c := append([]byte{}, ct...)
 		copy(c[o:], ct[o+bs:o+2*bs])
 		copy(c[o+bs:], ct[o:o+bs])
@@ -160,8 +223,8 @@ func base(r *vh.Run, et int32, ki, n int) {
 		try("blockswap", fmt.Sprint(o), c, ekey, usage, "blockswap_rejected")
 	}
 	// every other usage
-	for _, u := range pcommon.UsageSet {
-		if u == usage {
+	for ui, u := range pcommon.UsageSet {
+		if u == usage || (sparse && ui%6 != 0) {
 			continue
 		}
 		if et == kcrypto.RC4 && kcrypto.RC4Usage(u) == kcrypto.RC4Usage(usage) {
